@@ -7,7 +7,7 @@ M2: every exported behaviour is replayed: the real writer must emit the
     ranks, and the list embedded in 2- and 3-agent files (first side and second
     side) must be read by Solver with those ranks.
 """
-from . import common, engine, impl
+from . import common, engine, impl, tlc
 
 INVS = ['WriterDepth', 'ParensOK', 'OrderPreserved', 'SameRankIffTied', 'DenseRanks',
         'TextTiesAreTies', 'LastIrrelevant', 'FunctionalForm', 'RanksTiesInverse',
@@ -91,8 +91,8 @@ def main(tier, seed):
             seen['nt'] += 1
     try:
         res = engine.tlc_replay(rep, pool, 'MC_Ties', replay,
-                                consts={'N': n, 'Variants': {'rev', 'two'}, 'WithFiles': True},
-                                invariants=INVS, on_result=on_result, timeout=3000)
+                                consts={'N': n, 'Variants': {'rev', 'two'}, 'WithFiles': True, 'LongNs': set()},
+                                invariants=INVS, properties=['WriterBridge', 'ReaderBridge'], on_result=on_result, timeout=3000)
     finally:
         pool.close()
     expected = 2 * (2 ** (n + 1) - 1) - 1   # both variants share the empty list
@@ -102,16 +102,37 @@ def main(tier, seed):
     pool = engine.Pool()
     n3 = 6 if tier == 'quick' else 8
     try:
-        res3 = engine.tlc_replay(rep, pool, 'MC_Ties', replay, consts={'N': n3, 'Variants': {'big'}, 'WithFiles': True},
+        res3 = engine.tlc_replay(rep, pool, 'MC_Ties', replay, consts={'N': n3, 'Variants': {'big'}, 'WithFiles': True, 'LongNs': set()},
                                  invariants=INVS, on_result=on_result, timeout=3000, label='MC_Ties three-digit entries')
     finally:
         pool.close()
     rep.notes.append('three-digit entries: lists up to length %d, %d behaviours' % (n3, res3['exports']))
+    # long lists (25 and 60 entries), decision vectors sampled by tlc -simulate, replayed like the short ones
+    pool = engine.Pool()
+    nlong = 400 if tier == 'quick' else 4000
+    try:
+        resl = engine.tlc_replay(rep, pool, 'MC_Ties', replay, consts={'N': 0, 'Variants': {'rev', 'two', 'big'}, 'WithFiles': True, 'LongNs': {25, 60}},
+                                 invariants=INVS, properties=['WriterBridge', 'ReaderBridge'], on_result=on_result, timeout=3000,
+                                 simulate=(max(1, nlong // common.NCPU), 300), seed=seed, label='MC_Ties long lists (sampled)')
+    finally:
+        pool.close()
+    rep.notes.append('long lists (25 and 60 entries): %d sampled decision vectors' % resl['exports'])
+    # lists of ANY length: the finite abstraction of the two automata (TiesAbs.tla), bridged to the concrete
+    # automata by the action properties WriterBridge / ReaderBridge checked above
+    ra = tlc.run('TiesAbs', spec='ASpec', invariants=['SameRankIffTiedA', 'IncZeroOrOne', 'DepthZeroOne', 'BalancedAtEnd', 'OpenMeansTied', 'InSync'],
+                 extra_files=['unbounded/TiesAbs.tla'], label='TiesAbs (all list lengths)', workers=2, timeout=600)
+    tlc.require_ok(ra, 'C13')
+    rep.add_tlc(tlc.stats_of(ra))
+    rep.cov['unbounded_abstraction'] = {'module': 'spec/unbounded/TiesAbs.tla', 'abstract_states': ra['distinct'],
+                                        'laws': ['SameRankIffTiedA', 'IncZeroOrOne', 'DepthZeroOne', 'BalancedAtEnd', 'OpenMeansTied', 'InSync'],
+                                        'bridge': 'TLC PROPERTY WriterBridge, ReaderBridge on MC_Ties (every concrete step is an abstract step)'}
+    rep.notes.append('TiesAbs: %d abstract states cover lists of every length and every decision vector' % ra['distinct'])
     rep.evaluations = res['exports']
     rep.distinct = set(range(seen['nt']))
     rep.sample({'list': [3, 2, 1], 'ties': [1, 0, 1], 'tokens': ['(3', '2)', '1'], 'ranks': [1, 1, 2],
                 'note': 'shape of an exported behaviour; all %d were replayed' % res['exports']})
     rep.assumptions = ['TLC/SANY and CommunityModules are correct', 'list entries are distinct positive integers (one or two digits)']
     return rep.finish(exhaustive=True,
-                      rule='every list length 0..%d x every tie-indicator vector x 2 entry variants, enumerated by TLC; '
-                           'non-trivial = at least one effective tie indicator' % n)
+                      rule='EXHAUSTIVE part: every list length 0..%d x every tie-indicator vector x 2 entry variants (and lengths 0..%d with '
+                           'three-digit entries), enumerated by TLC; in addition sampled decision vectors for lists of 25 and 60 entries, and the '
+                           'finite abstraction TiesAbs.tla for every length; non-trivial = at least one effective tie indicator' % (n, n3))
